@@ -739,6 +739,21 @@ func runTable(c *Case, out *RunOut) {
 			viol("get", fmt.Sprintf("Get(%q) of an absent key = %s, %v", k, descVal(err == nil, v), err))
 			return
 		}
+		if ok {
+			// a lookup through the filter never hides a stored key
+			fk, fv, ferr := tr.Find(k, true, nil)
+			if ferr != nil || !bytes.Equal(fk, k) || !bytes.Equal(fv, want) {
+				viol("find-filtered", fmt.Sprintf("Find(%q, filtered) = %q, %v; the key is stored", k, fk, ferr))
+				return
+			}
+			if fk, ferr := tr.FindKey(k, true, nil); ferr != nil || !bytes.Equal(fk, k) {
+				viol("find-filtered", fmt.Sprintf("FindKey(%q, filtered) = %q, %v; the key is stored", k, fk, ferr))
+				return
+			}
+		} else if fk, _, ferr := tr.Find(k, true, nil); ferr == nil && bytes.Compare(fk, k) < 0 {
+			viol("find-filtered", fmt.Sprintf("Find(%q, filtered) returned the smaller key %q", k, fk))
+			return
+		}
 		rk, rv, err := tr.Find(k, false, nil)
 		i := sort.Search(len(keys), func(i int) bool { return bytes.Compare(keys[i], k) >= 0 })
 		if i == len(keys) {
